@@ -52,20 +52,25 @@ class GT:
     """opaque Michelson type (annotation-free, comparable / duplicable / packable as required by the typing rule of the case)"""
     __pyvc_symbolic__ = True
 
-    def __init__(self, name):
-        self.name = name
+    def __init__(self, name, base=None):
+        """base: the anonymous twin of an ANNOTATED opaque type (field_name 'fld', type_name 'typ'); None for an anonymous type"""
+        self.name, self.base = name, base
         self.prim, self.args = f'opaque:{name}', []
-        self.field_name = self.type_name = self.literal = None
+        self.literal = None
+        self.field_name, self.type_name = ('fld', 'typ') if base is not None else (None, None)
 
     def __repr__(self):
-        return f'GT({self.name})'
+        return f'GT({self.name}{" %fld :typ" if self.base is not None else ""})'
+
+    def anon(self):
+        return self.base if self.base is not None else self
 
     def __pyvc_issubclass__(self, cs):
         return any(c in _base_classes() for c in cs)
 
     def _eq(self, e, a, k):
         other = a[0]
-        if other is not self:
+        if not isinstance(other, GT) or other.anon() is not self.anon():       # type equality is modulo annotations
             raise RaiseEx(AssertionError(f'expected {getattr(other, "prim", other)}, got {self.prim}'))
         return None
 
@@ -75,8 +80,12 @@ class GT:
         return None
 
     def __pyvc_attr__(self, eng, name):
-        if name in ('field_name', 'type_name', 'literal'):
+        if name == 'literal':
             return None
+        if name == 'field_name':
+            return self.field_name
+        if name == 'type_name':
+            return self.type_name
         if name == 'prim':
             return self.prim
         if name == 'args':
@@ -86,7 +95,7 @@ class GT:
         if name == 'assert_type_in':
             return F(self._in)
         if name == 'get_anon_type':
-            return F(lambda e, a, k: self)
+            return F(lambda e, a, k: self.anon())
         if name in ('is_comparable', 'is_duplicable', 'is_packable', 'is_pushable', 'is_storable', 'is_passable', 'is_big_map_friendly'):
             return F(lambda e, a, k: True)
         if name == 'as_micheline_expr':
@@ -119,6 +128,8 @@ class GLeaf:
         if name in ('field_name', 'type_name', 'literal', 'prim', 'args', 'assert_type_equal', 'assert_type_in', 'get_anon_type', 'is_comparable',
                     'is_duplicable', 'is_packable', 'is_pushable', 'is_storable', 'is_passable', 'is_big_map_friendly'):
             return self.ty.__pyvc_attr__(eng, name)
+        if name == 'to_literal':
+            return F(lambda e, a, k: GLit(self))
         raise Unsupported(f'opaque value .{name}')
 
     def __pyvc_cmp__(self, eng, op, other, refl):
@@ -134,12 +145,81 @@ class GLeaf:
         return Sym({ast.Lt: a < b, ast.LtE: a <= b, ast.Gt: a > b, ast.GtE: a >= b, ast.Eq: a == b, ast.NotEq: a != b}[type(op)])
 
 
+class GLit:
+    """the Micheline literal of an opaque value (x.to_literal())"""
+    __pyvc_symbolic__ = True
+
+    def __init__(self, leaf):
+        self.leaf = leaf
+
+
+class GText:
+    """opaque ASCII text (Michelson strings are printable ASCII: len(s) == len(s.encode())): a sequence of segments (source text, start, stop);
+    a source text `name` of symbolic length n is the single segment (name, 0, n).  Slicing and concatenation stay symbolic."""
+    __pyvc_symbolic__ = True
+    __pyvc_strlike__ = True
+
+    def __init__(self, name, n, segs=None):
+        self.name, self.n = name, n
+        self.segs = segs if segs is not None else [(name, z3.IntVal(0), Z(n))]
+
+    def __repr__(self):
+        return f'<text {self.name}>'
+
+    def __pyvc_isinstance__(self, cs):
+        return str in cs
+
+    def __pyvc_len__(self, eng):
+        return self.n
+
+    def __pyvc_truth__(self, eng):
+        return Sym(Z(self.n) != 0)
+
+    def __pyvc_getitem__(self, eng, sl):
+        from vlib.pyvc import solve
+        if not isinstance(sl, slice) or sl.step is not None or len(self.segs) != 1:
+            raise Unsupported('opaque text: only [start:stop] of a plain text')
+        start = z3.IntVal(0) if sl.start is None else Z(sl.start)
+        stop = Z(self.n) if sl.stop is None else Z(sl.stop)
+        inb = z3.And(start >= 0, start <= stop, stop <= Z(self.n))
+        if solve.prove(eng.axioms + list(eng.pc), inb, min(eng.timeout_ms, 3000)).status != 'unsat':
+            raise Unsupported('opaque text: slice bounds not provably within the text (clamping not modelled)')
+        src, s0, _ = self.segs[0]
+        return GText(f'{self.name}[:]', Sym(z3.simplify(stop - start)), [(src, z3.simplify(s0 + start), z3.simplify(s0 + stop))])
+
+    def __pyvc_binop__(self, eng, op, other, refl):
+        import ast
+        if isinstance(op, ast.Add) and isinstance(other, GText):
+            a, b = (other, self) if refl else (self, other)
+            return GText(f'{a.name}+{b.name}', Sym(z3.simplify(Z(a.n) + Z(b.n))), a.segs + b.segs)
+        return NotImplemented
+
+    def __pyvc_attr__(self, eng, name):
+        if name == 'encode':
+            return F(lambda e, a, k: _Encoded(self))
+        raise Unsupported(f'str.{name} on opaque text')
+
+
+class _Encoded:
+    __pyvc_symbolic__ = True
+
+    def __init__(self, of):
+        self.of = of
+
+    def __pyvc_len__(self, eng):
+        return self.of.n
+
+    def __pyvc_isinstance__(self, cs):
+        return bytes in cs
+
+
 def mk(base, args, **extra):
     """a real pytezos class parametrised by (ghost or real) arguments, as create_type builds it (no annotations)"""
     from pytezos.michelson.types.base import MichelsonType
-    ns = dict(args=list(args), **extra)
+    ns = dict(args=list(args))
     if issubclass(base, MichelsonType):
         ns.update(field_name=None, type_name=None)
+    ns.update(extra)
     return type(base.__name__, (base,), ns)
 
 
@@ -201,17 +281,34 @@ NAT_POOL = ('nat', 'string', 'bytes', 'mutez', 'timestamp', 'bool', 'int')
 class World:
     """common interface of the symbolic (PyVC) and the native (replay) run of a case"""
 
-    def __init__(self, want='all'):
+    def __init__(self, want='all', annotated=False):
         self.want = want            # 'values' (C01) | 'types' (C02) | 'all'
+        self.annotated = annotated  # C17: the run-time classes of the operands carry field and type annotations
+        self.suffix = '[annotated operands]' if annotated else ''
         self.leafids = {}
-        self.types = {}
+        self.types, self.atypes = {}, {}
+
+    def oid(self, oid):
+        return oid.replace('::', self.suffix + '::', 1) if self.suffix else oid
+
+    def ann(self):
+        """class attributes of an operand class: a value taken out of an annotated pair keeps field_name / type_name"""
+        return dict(field_name='fld', type_name='typ') if self.annotated else {}
+
+    def cls(self, base, args=()):
+        """class of a stand-alone operand of a concrete Michelson type"""
+        return mk(base, list(args), **self.ann()) if (self.annotated or args) else base
+
+    def cty(self, key):
+        """type of a pair / or COMPONENT (may be annotated); arguments of list / set / map / option / ticket are always anonymous (`ty`)"""
+        return self.aty(key) if self.annotated else self.ty(key)
 
     # -- obligations
     def check(self, oid, goal, kind):
         """kind: 'v' value clause (C01), 't' type clause (C02), 's' safety (both)"""
         if kind == 'v' and self.want == 'types' or kind == 't' and self.want == 'values':
             return
-        self._check(oid, goal if z3.is_expr(goal) else z3.BoolVal(bool(goal)))
+        self._check(self.oid(oid), goal if z3.is_expr(goal) else z3.BoolVal(bool(goal)))
 
     def typeof(self, v):
         if isinstance(v, GLeaf):
@@ -221,7 +318,7 @@ class World:
         return type(v)
 
     def pair(self, a, b):
-        return self.inst(mk(_T().PairType, [self.typeof(a), self.typeof(b)]), items=(a, b))
+        return self.inst(mk(_T().PairType, [self.typeof(a), self.typeof(b)], **self.ann()), items=(a, b))
 
     def comb(self, xs):
         return xs[0] if len(xs) == 1 else self.pair(xs[0], self.comb(xs[1:]))
@@ -229,20 +326,32 @@ class World:
     def coll(self, kind, tkeys, items):
         T = _T()
         base = dict(list=T.ListType, set=T.SetType, map=T.MapType)[kind]
-        return self.inst(mk(base, [self.ty(t) for t in tkeys]), items=list(items))
+        return self.inst(mk(base, [self.ty(t) for t in tkeys], **self.ann()), items=list(items))
 
     def option(self, tkey, item):
-        return self.inst(mk(_T().OptionType, [self.ty(tkey)]), item=item)
+        return self.inst(mk(_T().OptionType, [self.ty(tkey)], **self.ann()), item=item)
 
     def either(self, tl, tr, left, x):
         from pytezos.michelson.types.base import Undefined
-        return self.inst(mk(_T().OrType, [self.ty(tl), self.ty(tr)], is_enum=False), items=(x, Undefined) if left else (Undefined, x))
+        return self.inst(mk(_T().OrType, [self.cty(tl), self.cty(tr)], is_enum=False, **self.ann()), items=(x, Undefined) if left else (Undefined, x))
 
     def boolean(self, v):
-        return self.inst(_T().BoolType, value=v)
+        return self.inst(self.cls(_T().BoolType), value=v)
 
     def integer(self, v):
-        return self.inst(_T().IntType, value=v)
+        return self.inst(self.cls(_T().IntType), value=v)
+
+    def nat(self, v):
+        return self.inst(self.cls(_T().NatType), value=v)
+
+    def string(self, v):
+        return self.inst(self.cls(_T().StringType), value=v)
+
+    def bytesv(self, v):
+        return self.inst(self.cls(_T().BytesType), value=v)
+
+    def ticket(self, ticketer, tkey, item, amount):
+        return self.inst(mk(_T().TicketType, [self.ty(tkey)], **self.ann()), ticketer=ticketer, item=item, amount=amount)
 
     def stack(self, items):
         from pytezos.michelson.stack import MichelsonStack
@@ -265,8 +374,8 @@ class World:
 class SymWorld(World):
     sym = True
 
-    def __init__(self, e, want='all'):
-        super().__init__(want)
+    def __init__(self, e, want='all', annotated=False):
+        super().__init__(want, annotated)
         self.e = e
 
     def _check(self, oid, goal):
@@ -277,10 +386,21 @@ class SymWorld(World):
             self.types[key] = GT(key)
         return self.types[key]
 
+    def aty(self, key):
+        if key not in self.atypes:
+            self.atypes[key] = GT(key, base=self.ty(key))
+        return self.atypes[key]
+
     def leaf(self, name, tkey, rank=None):
-        x = GLeaf(name, self.ty(tkey), rank)
+        x = GLeaf(name, self.cty(tkey), rank)
         self.leafids[id(x)] = x
         return x
+
+    def text(self, name):
+        return GText(name, self.e.int(f'len({name})', lo=0))
+
+    def rawbytes(self, name, n=None):
+        return self.e.bytes(name, n)
 
     def sint(self, name, lo=None):
         return self.e.int(name, lo=lo)
@@ -312,8 +432,8 @@ class NatWorld(World):
     """the real code, natively, on concrete values: opaque types become distinct real leaf types, ranks come from the counter-model"""
     sym = False
 
-    def __init__(self, model, want='all'):
-        super().__init__(want)
+    def __init__(self, model, want='all', annotated=False):
+        super().__init__(want, annotated)
         self.model = dict(model or {})
         self.failed = []
         self.inconclusive = None
@@ -341,18 +461,42 @@ class NatWorld(World):
                 self.types[key] = names[NAT_POOL[len([k for k in self.types.values() if k is not None]) % len(NAT_POOL)]]
         return self.types[key]
 
+    def aty(self, key):
+        if key not in self.atypes:
+            self.atypes[key] = mk(self.ty(key), [], field_name='fld', type_name='typ')
+        return self.atypes[key]
+
+    def text(self, name):
+        n = self.model.get(f'len({name})', 0)
+        n = n if isinstance(n, int) and 0 <= n <= 4096 else 0
+        k = sum(map(ord, name))
+        return ''.join(chr(97 + (k + 7 * i) % 26) for i in range(n))
+
+    def rawbytes(self, name, n=None):
+        v = self.model.get(name, b'')
+        if isinstance(v, str):        # replay files are JSON: bytes travel as repr / hex
+            try:
+                v = bytes.fromhex(v)
+            except ValueError:
+                v = v.encode('latin-1', 'ignore')
+        v = bytes(v)
+        if n is not None:
+            v = (v + bytes(n))[:n]
+        return v
+
     def leaf(self, name, tkey, rank=None):
         T = _T()
-        cls = self.ty(tkey, ranked=rank is not None)
+        base = self.ty(tkey, ranked=rank is not None)
+        cls = self.aty(tkey) if self.annotated else base
         self.n += 1
         i = self.n
         if rank is not None:
             x = cls(int(rank))
-        elif cls is T.StringType:
+        elif base is T.StringType:
             x = cls('' if name in self.falsy else f's{i}')
-        elif cls is T.BytesType:
+        elif base is T.BytesType:
             x = cls(bytes([i]))
-        elif cls is T.BoolType:
+        elif base is T.BoolType:
             x = cls(bool(i % 2))
         else:
             x = cls(i)
@@ -436,7 +580,7 @@ def eqv(w, got, want):
     if not isinstance(got, tuple) or not isinstance(want, tuple) or not got or not want:
         return z3.BoolVal(False)
     if want[0] == 'key':
-        if got[0] != 'leaf' or w.typeof(got[1]) is not w.typeof(want[1]):
+        if got[0] != 'leaf' or tshape(w.typeof(got[1])) != tshape(w.typeof(want[1])):
             return z3.BoolVal(False)
         return w.rank(got[1]) == w.rank(want[1])
     if got[0] != want[0] or len(got) != len(want):
@@ -459,7 +603,7 @@ def eqv(w, got, want):
 def tshape(t):
     """shape of a type: opaque types by identity, real classes by (prim, argument shapes) — annotations ignored"""
     if isinstance(t, GT):
-        return ('opaque', t)
+        return ('opaque', t.anon())
     if not isinstance(t, type) or not hasattr(t, 'prim'):
         return ('not-a-type', repr(t)[:60])
     return (t.prim,) + tuple(tshape(a) for a in t.args)
@@ -511,6 +655,7 @@ def stack_checks(w, tag, st, exc, want_vals, want_types, rest, protected=0):
 
 
 def _why(w, oid, text):
+    oid = w.oid(oid)
     if w.sym and oid in w.e.obl and w.e.obl[oid]['status'] == 'failed':
         w.e.obl[oid]['reason'] = (w.e.obl[oid].get('reason') or '') + ' | ' + text
 
@@ -1048,7 +1193,188 @@ def c_unit(w):
     stack_checks(w, 'UNIT', st, exc, [('unit',)], [('unit',)], rest)
 
 
-CASES = dict(cxr=c_cxr, pair=c_pair, unpair=c_unpair, get=c_get, update=c_update, inj=c_inj, cons=c_cons, empty=c_empty, some=c_some,
+# ===================================================================================================== SLICE / CONCAT / tickets
+def text_eq(w, kind, got, segs):
+    """z3 Bool: the string / bytes payload `got` is the concatenation of source[start:stop] over segs = [(source payload, start, stop)]"""
+    from vlib.pyvc import SBytes
+    if not w.sym:
+        want = (b'' if kind == 'bytes' else '').join(src[z3.simplify(Z(a)).as_long():z3.simplify(Z(b)).as_long()] for src, a, b in segs)
+        return z3.BoolVal(type(got) is type(want) and got == want)
+    if kind == 'string':
+        if not isinstance(got, GText) or len(got.segs) != len(segs):
+            return z3.BoolVal(False)
+        return z3.And([z3.And(z3.BoolVal(g[0] == src.name), g[1] == Z(a), g[2] == Z(b)) for g, (src, a, b) in zip(got.segs, segs)] + [z3.BoolVal(True)])
+    if not isinstance(got, SBytes):
+        return z3.BoolVal(False)
+    lens = [z3.simplify(Z(b) - Z(a)) for _, a, b in segs]
+    if all(z3.is_int_value(x) for x in lens):              # concrete lengths: element-wise
+        want = [src.at(Z(a) + j) for (src, a, b), n in zip(segs, lens) for j in range(n.as_long())]
+        return z3.And([got.zn() == len(want)] + [got.at(j) == x for j, x in enumerate(want)])
+    if len(segs) != 1:
+        return z3.BoolVal(False)
+    src, a, b = segs[0]                                       # a view of the source array
+    return z3.And(z3.BoolVal(got.arr.eq(src.arr)), got.zoff() == src.zoff() + Z(a), got.zn() == Z(b) - Z(a))
+
+
+def payload_len(w, v):
+    from vlib.pyvc import SBytes
+    if isinstance(v, GText):
+        return Z(v.n)
+    if isinstance(v, SBytes):
+        return v.zn()
+    return z3.IntVal(len(v))
+
+
+def c_slice(w, kind):
+    """SLICE :: nat : nat : string|bytes : S -> option string|bytes : S   (Some s[o:o+l] iff o < |s| and o + l <= |s|, else None)"""
+    from pytezos.michelson.instructions import generic
+    tag = f'SLICE[{kind}]'
+    o, l = w.sint('offset', lo=0), w.sint('length', lo=0)
+    raw = w.text('s') if kind == 'string' else w.rawbytes('s')
+    sv = w.string(raw) if kind == 'string' else w.bytesv(raw)
+    rest = w.rest()
+    st = w.stack([w.nat(o), w.nat(l), sv] + rest)
+    exc = w.run(generic.SliceInstruction, st)
+    if not frame_ok(w, tag, st, exc, 1, rest):
+        return
+    n = payload_len(w, raw)
+    some = z3.And(Z(o) < n, Z(o) + Z(l) <= n)
+    r = st.items[0]
+    a = A(w, r)
+    if a == ('none',):
+        w.check(f'{tag}::ensures.result==spec', z3.Not(some), 'v')
+    elif a[0] == 'some' and w.typeof(fields(r)['item']).prim == kind:
+        got = fields(fields(r)['item']).get('value')
+        w.check(f'{tag}::ensures.result==spec', z3.And(some, text_eq(w, kind, got, [(raw, Z(o), Z(o) + Z(l))])), 'v')
+    else:
+        w.check(f'{tag}::ensures.result==spec', False, 'v')
+    w.check(f'{tag}::ensures.result_type==static', TY(w, r) == ('option', (kind,)), 't')
+
+
+def c_concat(w, kind):
+    """CONCAT :: string : string : S -> string : S  (pair form; also bytes)"""
+    from pytezos.michelson.instructions import generic
+    tag = f'CONCAT[{kind}]'
+    if kind == 'string':
+        ra, rb = w.text('a'), w.text('b')
+        va, vb = w.string(ra), w.string(rb)
+    else:
+        ra, rb = w.rawbytes('a', 2), w.rawbytes('b', 3)
+        va, vb = w.bytesv(ra), w.bytesv(rb)
+    rest = w.rest()
+    st = w.stack([va, vb] + rest)
+    exc = w.run(generic.ConcatInstruction, st)
+    if not frame_ok(w, tag, st, exc, 1, rest):
+        return
+    r = st.items[0]
+    ok = not w.isleaf(r) and getattr(w.typeof(r), 'prim', None) == kind
+    got = fields(r).get('value') if ok else None
+    w.check(f'{tag}::ensures.result==spec',
+            text_eq(w, kind, got, [(ra, z3.IntVal(0), payload_len(w, ra)), (rb, z3.IntVal(0), payload_len(w, rb))]) if ok else False, 'v')
+    w.check(f'{tag}::ensures.result_type==static', TY(w, r) == (kind,), 't')
+
+
+ADDR_A = 'KT1BEqzn5Wx8uJrZNvuS9DVHmLvG9td3fDLi'
+ADDR_B = 'KT1TxqZ8QtKvLu3V3JH7Gx58n7Co8pgtpQU5'
+
+
+def absticket(w, v):
+    """(ticketer, content (identity), amount) of a ticket value, or None"""
+    if w.isleaf(v) or getattr(w.typeof(v), 'prim', None) != 'ticket':
+        return None
+    f = fields(v)
+    return f.get('ticketer'), f.get('item'), f.get('amount')
+
+
+def c_join_tickets(w, same_ticketer, same_content):
+    """JOIN_TICKETS :: pair (ticket C) (ticket C) : S -> option (ticket C) : S   (Some iff same ticketer and same content; amounts add up)"""
+    from pytezos.michelson.instructions import ticket as TI
+    tag = f'JOIN_TICKETS[{"same" if same_ticketer else "different"} ticketer,{"same" if same_content else "different"} content]'
+    x, y = w.sint('amount_a', lo=1), w.sint('amount_b', lo=1)
+    ca = w.leaf('c', 'C')
+    cb = ca if same_content else w.leaf('d', 'C')
+    ta = w.ticket(ADDR_A, 'C', ca, x)
+    tb = w.ticket(ADDR_A if same_ticketer else ADDR_B, 'C', cb, y)
+    rest = w.rest()
+    st = w.stack([w.pair(ta, tb)] + rest)
+    exc = w.run(TI.JoinTicketsInstruction, st)
+    if not frame_ok(w, tag, st, exc, 1, rest):
+        return
+    r = st.items[0]
+    a = A(w, r)
+    if same_ticketer and same_content:
+        t = absticket(w, fields(r).get('item')) if a[0] == 'some' else None
+        w.check(f'{tag}::ensures.result==spec', z3.And(z3.BoolVal(t[0] == ADDR_A and t[1] is ca), Z(t[2]) == Z(x) + Z(y)) if t else False, 'v')
+    else:
+        w.check(f'{tag}::ensures.result==spec', a == ('none',), 'v')
+    w.check(f'{tag}::ensures.result_type==static', TY(w, r) == ('option', ('ticket', tshape(w.ty('C')))), 't')
+
+
+def c_split_ticket(w):
+    """SPLIT_TICKET :: ticket C : pair nat nat : S -> option (pair (ticket C) (ticket C)) : S   (Some iff both parts > 0 and they sum to the amount)"""
+    from pytezos.michelson.instructions import ticket as TI
+    T = _T()
+    tag = 'SPLIT_TICKET'
+    amount, l, r_ = w.sint('amount', lo=1), w.sint('left', lo=0), w.sint('right', lo=0)
+    content = T.NatType(5)          # the content is copied with copy.copy: a concrete value (its type argument stays anonymous)
+    tk = w.inst(mk(T.TicketType, [T.NatType], **w.ann()), ticketer=ADDR_A, item=content, amount=amount)
+    rest = w.rest()
+    st = w.stack([tk, w.pair(w.nat(l), w.nat(r_))] + rest)
+    exc = w.run(TI.SplitTicketInstruction, st)
+    if not frame_ok(w, tag, st, exc, 1, rest):
+        return
+    res = st.items[0]
+    a = A(w, res)
+    some = z3.And(Z(l) > 0, Z(r_) > 0, Z(l) + Z(r_) == Z(amount))
+    if a == ('none',):
+        w.check(f'{tag}::ensures.result==spec', z3.Not(some), 'v')
+    else:
+        parts = None
+        if a[0] == 'some' and getattr(w.typeof(fields(res)['item']), 'prim', None) == 'pair':
+            its = fields(fields(res)['item']).get('items')
+            if isinstance(its, tuple) and len(its) == 2:
+                parts = [absticket(w, x) for x in its]
+        if parts and all(parts):
+            okc = all(p[0] == ADDR_A and getattr(type(p[1]), 'prim', None) == 'nat' and p[1].value == 5 for p in parts)
+            w.check(f'{tag}::ensures.result==spec', z3.And(some, z3.BoolVal(okc), Z(parts[0][2]) == Z(l), Z(parts[1][2]) == Z(r_)), 'v')
+        else:
+            w.check(f'{tag}::ensures.result==spec', False, 'v')
+    tt = ('ticket', ('nat',))
+    w.check(f'{tag}::ensures.result_type==static', TY(w, res) == ('option', ('pair', tt, tt)), 't')
+
+
+def c_apply(w):
+    """APPLY :: 'a : lambda (pair 'a 'b) 'c : S -> lambda 'b 'c : S   (the new body is { PUSH 'a x ; PAIR ; body })"""
+    from pytezos.michelson.instructions import control, adt
+    from pytezos.michelson.instructions.stack import PushInstruction
+    from pytezos.michelson.micheline import MichelineSequence
+    T = _T()
+    tag = 'APPLY'
+    x, rest = w.leaf('x', 'A'), w.rest()
+    body = GBody('body', [])
+    ptype = mk(T.PairType, [w.cty('A'), w.cty('B')])          # components of the parameter pair may be annotated
+    lam = w.inst(mk(T.LambdaType, [ptype, w.ty('C')], **w.ann()), value=body)
+    st = w.stack([x, lam] + rest)
+    exc = w.run(control.ApplyInstruction, st)
+    if not frame_ok(w, tag, st, exc, 1, rest):
+        return
+    r = st.items[0]
+    ok = not w.isleaf(r) and getattr(w.typeof(r), 'prim', None) == 'lambda'
+    seq = fields(r).get('value') if ok else None
+    ok = ok and isinstance(seq, type) and issubclass(seq, MichelineSequence) and len(seq.args) == 3
+    if ok:
+        push, pr, b = seq.args
+        ok = isinstance(push, type) and issubclass(push, PushInstruction) and len(push.args) == 2 and tshape(push.args[0]) == tshape(w.ty('A')) \
+            and pr is adt.PairInstruction and b is body
+        if ok and w.sym:
+            ok = isinstance(push.args[1], GLit) and push.args[1].leaf is x
+        elif ok:
+            ok = push.args[1].as_micheline_expr() == x.to_literal().as_micheline_expr()
+    w.check(f'{tag}::ensures.result==spec', bool(ok), 'v')
+    w.check(f'{tag}::ensures.result_type==static', TY(w, r) == ('lambda', tshape(w.ty('B')), tshape(w.ty('C'))), 't')
+
+
+CASES = dict(apply=c_apply, slice=c_slice, concat=c_concat, join_tickets=c_join_tickets, split_ticket=c_split_ticket, cxr=c_cxr, pair=c_pair, unpair=c_unpair, get=c_get, update=c_update, inj=c_inj, cons=c_cons, empty=c_empty, some=c_some,
              get_map=c_get_map, mem=c_mem, update_set=c_update_set, update_map=c_update_map, **{'if': c_if}, if_none=c_if_none, if_left=c_if_left,
              if_cons=c_if_cons, dip=c_dip, loop=c_loop, loop_left=c_loop_left, iter=c_iter, map=c_map, zero_compare=c_zero_compare, size=c_size,
              unit=c_unit)
@@ -1111,6 +1437,15 @@ def specs(thorough):
     for p in ('EQ', 'NEQ', 'LT', 'GT', 'LE', 'GE'):
         out.append(('P', 'zero_compare', p))
     out.append(('P', 'unit',))
+    for kind in ('string', 'bytes'):
+        out.append(('P', 'slice', kind))
+    out.append(('P', 'concat', 'string'))
+    out.append(('S', 'concat', 'bytes'))
+    for st_ in (False, True):
+        for sc in (False, True):
+            out.append(('P', 'join_tickets', st_, sc))
+    out.append(('P', 'split_ticket',))
+    out.append(('P', 'apply',))
     return out
 
 
@@ -1120,13 +1455,19 @@ def job(want, name, *params):
     return h
 
 
+def job_annot(want, name, *params):
+    def h(e: Engine):
+        CASES[name](SymWorld(e, want, annotated=True), *params)
+    return h
+
+
 # ===================================================================================================== native replay
 def native(case):
     s = case.get('spec')
     if not s:
         return False, 'no case description'
     name, params = s[1], [_tup(x) for x in s[2:]]
-    w = NatWorld({k: v for k, v in case.items() if k != 'spec'}, case.get('want', 'all'))
+    w = NatWorld({k: v for k, v in case.items() if k not in ('spec', 'want', 'annotated')}, case.get('want', 'all'), bool(case.get('annotated')))
     try:
         CASES[name](w, *params)
     except Exception as ex:   # noqa
@@ -1140,8 +1481,8 @@ def native(case):
 
 def _describe(w):
     d = ', '.join(f'{type(v).__name__[:-4].lower()} {getattr(v, "value", v)!r}' for v in list(w.leafids.values())[:8])
-    m = {k: v for k, v in w.model.items() if k not in ('spec', 'want')}
-    return d + (f'; symbolic inputs {m}' if m else '')
+    m = {k: v for k, v in w.model.items() if k not in ('spec', 'want', 'annotated')}
+    return d + (f'; symbolic inputs {m}' if m else '') + ('; operand classes annotated %fld :typ' if w.annotated else '')
 
 
 def _tup(x):
@@ -1166,24 +1507,27 @@ def _run_grouped(jobs, size=6):
 
 
 def record_functions(ck):
-    from pytezos.michelson.instructions import adt, struct, control, compare, generic
+    from pytezos.michelson.instructions import adt, struct, control, compare, generic, ticket
     from pytezos.michelson import types as T
     from pytezos.michelson.stack import MichelsonStack
     for mod, names in ((adt, ('CarInstruction', 'CdrInstruction', 'PairInstruction', 'UnpairInstruction', 'PairnInstruction', 'UnpairnInstruction',
                               'GetnInstruction', 'UpdatenInstruction', 'LeftInstruction', 'RightInstruction')),
                        (struct, ('ConsInstruction', 'NilInstruction', 'SomeInstruction', 'NoneInstruction', 'EmptySetInstruction', 'EmptyMapInstruction',
                                  'GetInstruction', 'MemInstruction', 'UpdateInstruction', 'GetAndUpdateInstruction')),
-                       (control, ('IfInstruction', 'IfNoneInstruction', 'IfLeftInstruction', 'IfConsInstruction', 'DipInstruction', 'DipnInstruction',
+                       (control, ('ApplyInstruction', 'IfInstruction', 'IfNoneInstruction', 'IfLeftInstruction', 'IfConsInstruction', 'DipInstruction', 'DipnInstruction',
                                   'LoopInstruction', 'LoopLeftInstruction', 'IterInstruction', 'MapInstruction')),
                        (compare, ('EqInstruction', 'NeqInstruction', 'LtInstruction', 'GtInstruction', 'LeInstruction', 'GeInstruction')),
-                       (generic, ('SizeInstruction', 'UnitInstruction'))):
+                       (generic, ('SizeInstruction', 'UnitInstruction', 'SliceInstruction', 'ConcatInstruction')),
+                       (ticket, ('JoinTicketsInstruction', 'SplitTicketInstruction'))):
         for n in names:
             ck.function(getattr(mod, n).__dict__['execute'], name=f'{mod.__name__}:{n}.execute')
     for f in (adt.execute_cxr, control.execute_dip, compare.execute_zero_compare, T.PairType.from_comb, T.PairType.init, T.PairType.create_type,
               T.PairType.iter_comb, T.PairType.unpairn_comb, T.PairType.access_comb, T.PairType.update_comb, T.OrType.from_left, T.OrType.from_right,
               T.OrType.resolve, T.OrType.is_left, T.OptionType.none, T.OptionType.from_some, T.ListType.prepend, T.ListType.split_head,
               T.ListType.from_items, T.ListType.empty, T.SetType.empty, T.SetType.add, T.SetType.remove, T.SetType.contains, T.MapType.empty,
-              T.MapType.get, T.MapType.update, T.MapType.contains, T.MapType.from_items, MichelsonStack.push, MichelsonStack.pop):
+              T.MapType.get, T.MapType.update, T.MapType.contains, T.MapType.from_items, MichelsonStack.push, MichelsonStack.pop,
+              T.StringType.__getitem__, T.BytesType.__getitem__, T.TicketType.join, T.TicketType.split, T.MichelsonType.create_type,
+              T.MichelsonType.get_anon_type):
         ck.function(f)
 
 
@@ -1228,3 +1572,45 @@ def run_I(ck, want='values'):
 
 def run_I_types(ck):
     return run_I(ck, want='types')
+
+
+def run_I_annot(ck):
+    """C17: every case of specs() again with ANNOTATED operand classes (values taken out of an annotated pair / or keep field_name and
+    type_name in their run-time class).  Same reference results, same absence of failures, same result types modulo annotations.  An obligation
+    that fails in exactly the same way WITHOUT annotations is not an annotation effect (it belongs to C01 / C02) and is not reported here."""
+    record_functions(ck)
+    ck.assume('annotated world: every stand-alone operand (opaque value, bool / int / nat / string / bytes, pair, or, option, list, set, map, ticket) has a '
+              'run-time class carrying a field and a type annotation, as values taken out of an annotated pair by CAR / CDR / UNPAIR / GET n do; '
+              'pair / or component types are annotated too; type arguments of list / set / map / option / ticket and of instructions are anonymous '
+              '(Michelson and pytezos forbid annotated arguments there); type equality is modulo annotations')
+    th = ck.thorough()
+    sp = specs(th)
+    opts = dict(max_paths=3000)
+    jobs = [(repr(s[1:]) + '[annotated]', 'props.C01_I:job_annot', ('all',) + tuple(s[1:]), opts) for s in sp]
+    n_obl, same = 0, []
+    for res, s in zip(_run_grouped(jobs), sp):
+        if 'error' in res:
+            raise RuntimeError(f"harness {res['label']} crashed:\n{res['error']}")
+        failed = [k for k, v in res['obl'].items() if v['status'] == 'failed']
+        if failed:
+            plain = parallel._work((repr(s[1:]), 'props.C01_I:job', ('all',) + tuple(s[1:]), opts))
+            for k in failed:
+                pk = k.replace('[annotated operands]::', '::', 1)
+                if plain.get('obl', {}).get(pk, {}).get('status') == 'failed':
+                    res['obl'][k] = dict(res['obl'][k], status='discharged', cex=None, reason='')
+                    same.append(k)
+        eng = parallel.FakeEng(res)
+
+        def nat(cex, s=s):
+            c = dict(cex or {})
+            c.update(spec=list(s), want='all', annotated=True)
+            cex.clear()
+            cex.update(c)
+            return native(c)
+        report(ck, eng, [('', REPLAY, nat, None)], kind=s[0])
+        functions_interpreted(ck, eng)
+        n_obl += len(eng.obl)
+    if same:
+        ck.note('fail identically without annotations (not an annotation effect, reported by C01 / C02): ' + ', '.join(same))
+    ck.note(f'deductive part (annotated operands): {len(sp)} cases, {n_obl} obligations on the real execute methods')
+    return n_obl
